@@ -195,6 +195,14 @@ def alignment_programs():
         [("a b", "10"), ("", "90")],
         [(str(i), str(i + 1)) for i in range(64)],
         [("dup", "1"), ("dup", "2"), ("z", "0")],
+        # weights with many significant digits / extreme magnitudes must reach the generated code digit for digit
+        [("p", "0.1234567"), ("q", "0.8765433")],
+        [("p", "33.33333"), ("q", "33.33333"), ("r", "33.33334")],
+        [("p", "1234567"), ("q", "7654321"), ("r", "1111111")],
+        [("p", "999999.5"), ("q", "1000000.4"), ("r", "0.1")],
+        [("p", "123456789.123456789"), ("q", "0.000000001"), ("r", "1000000000")],
+        [("p", "0.30000000000000004"), ("q", "9007199254740993"), ("r", "0.1000000000000000055511151231257827")],
+        [("p", "16777217"), ("q", "4294967297"), ("r", "2.5000000001")],
     ]
     out = []
     for gl in lists:
